@@ -100,21 +100,23 @@ theorem C10_readBitmap_never_oob (c : Cfg) (v nBlock : Nat) (root : Blk) (s : St
   | fault f => exact h
 
 /-- **the file read path never dereferences a missing extension buffer nor indexes outside it**, whatever the image
-    contains (block counts, extension chains, pointers) and whichever accesses fail: on a read-mode handle whose
-    extension cursor is usable (true of every fresh handle: its block index is 0), `adfFileRead` — including every seek
-    it performs — ends normally or on the model's step bound, never on an out-of-bounds access, and leaves the cursor
-    usable.  (In C the sites are `file->currentExt->…` with a NULL pointer and `dataBlocks[71 - posInExtBlk]`.) -/
-theorem C10_fileRead_never_oob (c : Cfg) (h : FileH) (n : Nat) (s : St) (hro : h.modeWrite = false) (hx : ExtOK c h) :
-    Post NoOob c (fileRead h n) s (fun r _ => ExtOK c r.2 ∧ r.2.vol = h.vol ∧ r.2.modeWrite = h.modeWrite) :=
+    contains (block counts, extension chains, pointers) and whichever accesses fail: on a read-mode handle that holds no
+    block or whose extension cursor is usable (true of every fresh handle: its block index is 0), `adfFileRead` —
+    including every seek it performs — ends normally or on the model's step bound, never on an out-of-bounds access, and
+    leaves the handle in such a state again.  (In C the sites are `file->currentExt->…` with a NULL pointer and
+    `dataBlocks[71 - posInExtBlk]`.) -/
+theorem C10_fileRead_never_oob (c : Cfg) (h : FileH) (n : Nat) (s : St) (hro : h.modeWrite = false) (hx : ExtW c h) :
+    Post NoOob c (fileRead h n) s (fun r _ => ExtW c r.2 ∧ r.2.vol = h.vol ∧ r.2.modeWrite = h.modeWrite) :=
   fileRead_never_oob c h n s hro hx
 
-/-- the same for an explicit seek -/
-theorem C10_seek_never_oob (c : Cfg) (h : FileH) (pos : Nat) (s : St) (hro : h.modeWrite = false) (hx : ExtOK c h) :
-    Post NoOob c (seek h pos) s (fun r _ => ExtOK c r.2 ∧ r.2.vol = h.vol ∧ r.2.modeWrite = h.modeWrite) :=
+/-- the same for an explicit seek; on success the cursor is usable -/
+theorem C10_seek_never_oob (c : Cfg) (h : FileH) (pos : Nat) (s : St) (hro : h.modeWrite = false) (hx : ExtW c h) :
+    Post NoOob c (seek h pos) s (fun r _ =>
+      ExtW c r.2 ∧ (r.1 = rcOK → ExtOK c r.2) ∧ r.2.vol = h.vol ∧ r.2.modeWrite = h.modeWrite) :=
   (seek_family_extOK c SEEK_FUEL).1 h pos s hro hx
 
 /-- a handle that has not read any block yet has a usable cursor: the premise above is reachable -/
-example (c : Cfg) (h : FileH) (h0 : h.nDataBlock = 0) : ExtOK c h := by
-  intro _ hgt; rw [h0] at hgt; cases hgt
+example (c : Cfg) (h : FileH) (h0 : h.nDataBlock = 0) : ExtW c h := by
+  right; intro _ hgt; rw [h0] at hgt; cases hgt
 
 end Adf.C10
